@@ -1510,4 +1510,74 @@ def check_C12(tier, seed):
                     extra_cov={"policies": policies})
 
 
-CHECKS = {"C12": check_C12, "C19": check_C19, "C05": check_C05, "C18": check_C18, "C09": check_C09, "C15": check_C15, "C07": check_C07, "C10": check_C10, "C14": check_C14, "C04": check_C04, "C08": check_C08, "C01": check_C01, "C02": check_C02, "C03": check_C03, "C06": check_C06, "C17": check_C17}
+# ---------------------------------------------------------------------------
+def encode_script(rng, sid, policies):
+    """update, then encode -> lay out -> forget -> decode, then observe every method again."""
+    n = rng.randrange(2, 10)
+    classes, edges, methods, defs, abstract, kind = S.random_registry(rng, n, rng.randrange(1, 5), 3, 5,
+                                                                      shapes=["V", "NV", "VN", "VV", "VNV", "NVVN", "VVV", "VNVNV", "W", "S", "WS"])
+    s = S.Script(sid, [[p] for p in policies])
+    style = rng.choice(["complete", "complete+self", "direct", "random", "random"])
+    for c, bases in S.presentation(style, classes, edges, rng):
+        s.cls(c, bases, abstract=(c in abstract))
+    for m, sh, vp in methods:
+        s.method(m, sh, vp)
+    for m, d, vp in defs:
+        s.defn(m, d, vp)
+    s.update()
+    for m, sh, vp in methods:
+        s.table(m)
+    s.encode_decode()
+    for m, sh, vp in methods:
+        s.table(m)
+        s.ctable(m)
+        s.nexts(m)
+    return s
+
+
+def check_C13(tier, seed):
+    TCFG = "TraceYomm2_dispatch.cfg"
+    t0 = time.time()
+    out = F.Outcome("C13")
+    rng = random.Random(seed)
+    exe = C.build_dyn()
+    F.model_check(out, "Decode.tla", "Decode_fixed.cfg")
+    F.model_check(out, "Decode.tla", "Decode_asis.cfg", expect_violation=True)
+    policies = ["stdd", "stdr", "stdmap"]
+    scs = [encode_script(rng, "enc-%d" % i, policies) for i in range(500 if tier == "quick" else 10000)]
+    F.execute_and_validate("C13", exe, scs, out, "c13", TCFG)
+    if tier == "thorough":
+        asan = C.build_dyn(san="address")
+        F.execute_and_validate("C13", asan, scs[:2000], out, "c13-asan", TCFG)
+        out.notes.append("2000 scripts re-executed under AddressSanitizer (union and dispatch tables are exact-size heap blocks)")
+
+    def move_store(ev):
+        for x in ev["ev"]:
+            if x[0] == "s":
+                x[1] += 1 << 20
+                return True
+        return False
+
+    def grow(ev):
+        ev["nv"] = ev["E"] + 1
+        return True
+    for s in scs[:40]:
+        if F.selftest_corruption(exe, s, out, mutate_first("decoded", move_store), "one recorded decoder store moved outside the decoded v-tables", TCFG, must=False):
+            break
+    F.selftest_corruption(exe, scs[0], out, mutate_first("encoded", grow), "one initialiser too many in the recorded emitted data", TCFG)
+    out.need_selftest = True
+    c = out.action_counts
+    if not c.get("decoded"):
+        raise C.ToolFailure("vacuous: the decoder never ran")
+    return F.report("C13", tier, seed, out, t0, LEVEL,
+                    rule="a case = one random registry (lattices with v-tables not starting at slot 0, classes without entries, classes registered by "
+                         "several statements, uni- and multi-methods with error cells) under one std-rtti policy: after update the real generator encodes "
+                         "the dispatch data, the emitted declaration and initialisers are parsed and laid out exactly as declared, the installed tables "
+                         "are forgotten and the real decoder runs on the data (hook H4 reports every fetch and store); then all outcome tables, error "
+                         "records and next slots are observed again; distinct_nontrivial = distinct scripts",
+                    assumptions=ASSUME_DYN + ["the emitted text is parsed and laid out by the harness (sizes and initialiser counts are checked as a compiler would); "
+                                              "compiling it with g++ / clang++ is not part of this check"],
+                    extra_cov={"policies": policies})
+
+
+CHECKS = {"C13": check_C13, "C12": check_C12, "C19": check_C19, "C05": check_C05, "C18": check_C18, "C09": check_C09, "C15": check_C15, "C07": check_C07, "C10": check_C10, "C14": check_C14, "C04": check_C04, "C08": check_C08, "C01": check_C01, "C02": check_C02, "C03": check_C03, "C06": check_C06, "C17": check_C17}
